@@ -25,7 +25,7 @@ extra.update({"C03-11": ["C10", "C06"], "C03-12": ["C06"], "C06-11": ["C10", "C0
               "C08-11": ["C18"], "C08-12": ["C01"], "C09-11": ["C05"], "C10-11": ["C03", "C06"], "C10-12": ["C11"], "C11-11": ["C19"], "C11-12": ["C05"],
               "C12-11": ["C07"], "C13-12": ["C05"], "C14-11": ["C02"], "C15-11": ["C07"], "C15-12": ["C13"], "C16-11": ["C17"], "C16-12": ["C10"],
               "C17-11": ["C06"], "C17-12": ["C09"], "C18-11": ["C08"], "C18-12": ["C11"], "C19-12": ["C17"], "C20-11": ["C06"], "C20-12": ["C15"],
-              "C01-11": ["C02"], "C02-11": ["C15"], "C02-12": ["C05"], "C04-11": ["C09"], "C04-12": ["C09"], "C05-11": ["C13"], "C05-12": ["C02"]})
+              "C05-24": ["C08"], "C01-11": ["C02"], "C02-11": ["C15"], "C02-12": ["C05"], "C04-11": ["C09"], "C04-12": ["C09"], "C05-11": ["C13"], "C05-12": ["C02"]})
 only = sys.argv[1:]
 rows = []
 # the checks rewrite evidence/<id>.json on every run: what they write while a seeded change is applied must not stay
